@@ -375,7 +375,9 @@ class HeapBalancerSink(LoadBalancerSink):
     """Close the sink and all underlying nodes immediately."""
     super(HeapBalancerSink, self).Close()
     self._open = False
-    [n.channel.Close() for n in self._heap]
+    # Closing a channel fails its in-flight requests, whose release re-orders
+    # the heap: iterate over a snapshot.
+    [n.channel.Close() for n in list(self._heap)]
 
   @property
   def state(self):
